@@ -854,6 +854,14 @@ def complex_cases(rng, tier):
     add("inner", "real x complex", (lambda m, a, b: m.inner(a, b)), [r23, z23], [0, 1], True)
     add("outer", "real x complex", (lambda m, a, b: m.outer(a, b)), [iarr(rng, (3,)), z3], [0, 1], True)
     add("kron", "real x complex", (lambda m, a, b: m.kron(a, b)), [iarr(rng, (2,)), z3], [0, 1], True)
+    # a real entry / end point among complex ones: its gradient is real
+    add("array", "[x, 1j] real scalar entry", (lambda m, a: m.array([a, 1j]) ** 2), [2.0], [0], False)
+    add("array", "[x_vec, complex vec]", (lambda m, a: m.array([a, onp.array([1j, 2.0 - 1j, 0.5j])]) * (1.0 + 1.0j)), [iarr(rng, (3,))], [0], True)
+    add("array", "nested [[x0, 1j], [2, x1]]", (lambda m, a: m.array([[a[0], 1j], [2.0, a[1]]]) * (2.0 - 1.0j)), [iarr(rng, (2,))], [0], True)
+    add("linspace", "real start, complex stop", (lambda m, a: m.linspace(a, 1j, 3)), [2.0], [0], True)
+    add("linspace", "complex start, real stop", (lambda m, a: m.linspace(1.0 - 2.0j, a, 4)), [3.0], [0], False)
+    add("stack", "real piece among complex constants", (lambda m, a: m.stack([a, onp.array([1j, 2j, 3j])]) * (1.0 + 2.0j)), [iarr(rng, (3,))], [0], True)
+    add("concatenate", "real piece among complex constants", (lambda m, a: m.concatenate([onp.array([1j]), a, onp.array([2.0 + 1j])]) * 1j), [iarr(rng, (3,))], [0], True)
     add("trace", "complex", (lambda m, a: m.trace(a)), [cm], [0], False)
     add("matmul", "complex chain", (lambda m, a, b: m.matmul(m.matmul(a, b), m.conj(a))), [cm, cb], [0, 1], False)
     # real -> complex -> real composite gets a real gradient equal to the purely real one
